@@ -351,15 +351,22 @@ func (a *remoteAuthorizer) calculateCacheKey(sub *subject.Subject, values map[st
 	hash := sha256.New()
 	hash.Write(a.e.Hash())
 	hash.Write(stringx.ToBytes(a.id))
+	hash.Write([]byte{0})
 	hash.Write(stringx.ToBytes(strings.Join(a.headersForUpstream, ",")))
+	hash.Write([]byte{0})
 	hash.Write(stringx.ToBytes(payload))
+	hash.Write([]byte{0})
 	hash.Write(ttlBytes)
 	hash.Write(sub.Hash())
 
 	// iterate in a stable order. Otherwise, the key would depend on the map iteration order
+	// names and values are of variable length. Without a separator different sets
+	// of values (a=1b2, b="" and a=1, b=2b) would result in the same key
 	for _, k := range slices.Sorted(maps.Keys(values)) {
 		hash.Write(stringx.ToBytes(k))
+		hash.Write([]byte{0})
 		hash.Write(stringx.ToBytes(values[k]))
+		hash.Write([]byte{0})
 	}
 
 	return hex.EncodeToString(hash.Sum(nil))
